@@ -13,6 +13,7 @@ macro_rules! on_iter {
       Kind::Drain { it: $it, .. } => $e,
       Kind::Splice { it: $it, .. } => $e,
       Kind::Into { it: $it } => $e,
+      #[allow(unused_variables)]
       Kind::Filter { it: $it, .. } => $f,
       _ => return None,
     }
@@ -69,10 +70,14 @@ impl<T: El> Interp<T> {
         argc(2)?;
         let i = self.find(r)?;
         let Kind::Into { it } = &self.slots[i].kind else { return None };
-        match scoped(|| it.as_slice()) {
-          Some(s) => {
+        let res = scoped(|| {
+          let s = it.as_slice();
+          (s.as_ptr() as usize, s.len())
+        });
+        match res {
+          Some((p, n)) => {
             tp!("= ");
-            let vals = show_list(s.as_ptr(), s.len(), "as_slice", r);
+            let vals = show_list(p as *const T, n, "as_slice", r);
             tl!("");
             flush_pending();
             Out::List(vals)
